@@ -30,7 +30,8 @@ Record st := mkSt {
   hseq : Z;                (* _host_cid_seq *)
   rlimit : Z;              (* _remote_active_connection_id_limit *)
   hcur : Z;                (* sequence number of self.host_cid *)
-  issued : list Z;         (* ghost: ConnectionIdIssued events emitted (sequence numbers) *)
+  issued : list Z;         (* ghost: ConnectionIdIssued events emitted (sequence numbers; 0 = the initial ID) *)
+  retiredev : list Z;      (* ghost: ConnectionIdRetired events emitted *)
   (* receive context / connection state *)
   pkt : option Z;          (* context.host_cid of the packet being processed (None: no packet / dropped) *)
   closed : option Z        (* Some code: close(error_code=code) was called *)
@@ -38,16 +39,16 @@ Record st := mkSt {
 
 Definition set_peer (s : st) cur' avail' seen' rpt' pend' recvd' : st :=
   mkSt (is_client s) cur' avail' seen' rpt' pend' (outs s) (ackd s) recvd'
-       (hosts s) (hseq s) (rlimit s) (hcur s) (issued s) (pkt s) (closed s).
+       (hosts s) (hseq s) (rlimit s) (hcur s) (issued s) (retiredev s) (pkt s) (closed s).
 Definition set_deliv (s : st) pend' outs' ackd' : st :=
   mkSt (is_client s) (cur s) (avail s) (seen s) (rpt s) pend' outs' ackd' (recvd s)
-       (hosts s) (hseq s) (rlimit s) (hcur s) (issued s) (pkt s) (closed s).
-Definition set_host (s : st) hosts' hseq' issued' : st :=
+       (hosts s) (hseq s) (rlimit s) (hcur s) (issued s) (retiredev s) (pkt s) (closed s).
+Definition set_host (s : st) hosts' hseq' issued' retiredev' : st :=
   mkSt (is_client s) (cur s) (avail s) (seen s) (rpt s) (pend s) (outs s) (ackd s) (recvd s)
-       hosts' hseq' (rlimit s) (hcur s) issued' (pkt s) (closed s).
+       hosts' hseq' (rlimit s) (hcur s) issued' retiredev' (pkt s) (closed s).
 Definition set_ctx (s : st) hcur' pkt' closed' : st :=
   mkSt (is_client s) (cur s) (avail s) (seen s) (rpt s) (pend s) (outs s) (ackd s) (recvd s)
-       (hosts s) (hseq s) (rlimit s) hcur' (issued s) pkt' closed'.
+       (hosts s) (hseq s) (rlimit s) hcur' (issued s) (retiredev s) pkt' closed'.
 
 (* outcome of one op *)
 Inductive outc :=
@@ -63,7 +64,7 @@ Fixpoint remove1 (x : Z) (l : list Z) : list Z :=
 
 (* state right after construction (peer's first packet seen: _peer_cid.sequence_number = 0) *)
 Definition init (client : bool) : st :=
-  mkSt client 0 [] [0] 0 [] [] [] [0] [mkH 0 true] 1 INITIAL_REMOTE_ACTIVE_CID_LIMIT 0 [0] None None.
+  mkSt client 0 [] [0] 0 [] [] [] [0] [mkH 0 true] 1 INITIAL_REMOTE_ACTIVE_CID_LIMIT 0 [0] [] None None.
 
 (* ------------------------------------------------------------------ locally issued IDs *)
 
@@ -77,12 +78,12 @@ Fixpoint replenish_loop (fuel : nat) (hs : list hcid) (next target : Z) : list h
 Definition replenish (s : st) : st :=
   let target := Z.min REPLENISH_CAP (rlimit s) in
   let '(hs, next) := replenish_loop (Z.to_nat target) (hosts s) (hseq s) target in
-  set_host s hs next (issued s).
+  set_host s hs next (issued s) (retiredev s).
 
 (* handshake completion: the peer's transport parameters have been stored, then _replenish_connection_ids() *)
 Definition handshake_complete (s : st) (limit : Z) : st :=
   replenish (mkSt (is_client s) (cur s) (avail s) (seen s) (rpt s) (pend s) (outs s) (ackd s) (recvd s)
-                  (hosts s) (hseq s) limit (hcur s) (issued s) (pkt s) (closed s)).
+                  (hosts s) (hseq s) limit (hcur s) (issued s) (retiredev s) (pkt s) (closed s)).
 
 Definition has_host (q : Z) (hs : list hcid) : bool := existsb (fun h => h_seq h =? q) hs.
 Fixpoint del_host (q : Z) (hs : list hcid) : list hcid :=     (* del self._host_cids[index] of the first match *)
@@ -102,7 +103,8 @@ Definition recv_retire (s : st) (q : Z) : outc * st :=
       if q >=? hseq s then (OQErr E_PROTOCOL_VIOLATION, set_ctx s (hcur s) None (Some E_PROTOCOL_VIOLATION))
       else if has_host q (hosts s) && (q =? d) then
         (OQErr E_PROTOCOL_VIOLATION, set_ctx s (hcur s) None (Some E_PROTOCOL_VIOLATION))
-      else (OOk, replenish (set_host s (del_host q (hosts s)) (hseq s) (issued s)))
+      else (OOk, replenish (set_host s (del_host q (hosts s)) (hseq s) (issued s)
+                                     (if has_host q (hosts s) then retiredev s ++ [q] else retiredev s)))
   | _, _ => (OIgn, s)
   end.
 
@@ -175,7 +177,7 @@ Definition packet_done (s : st) : outc * st :=
 Definition send (s : st) : (Z * list Z * list Z) * st :=
   let news := map h_seq (filter (fun h => negb (h_sent h)) (hosts s)) in
   let hosts' := map (fun h => mkH (h_seq h) true) (hosts s) in
-  let s1 := set_host s hosts' (hseq s) (issued s ++ news) in
+  let s1 := set_host s hosts' (hseq s) (issued s ++ news) (retiredev s) in
   ((cur s, news, pend s), set_deliv s1 [] (outs s ++ pend s) (ackd s)).
 
 (* _on_retire_connection_id_delivery *)
@@ -187,7 +189,7 @@ Definition retire_delivery (s : st) (q : Z) (acked : bool) : st :=
    (an object already deleted from _host_cids is not reachable any more) *)
 Definition newcid_delivery (s : st) (q : Z) (acked : bool) : st :=
   if acked then s
-  else set_host s (map (fun h => if h_seq h =? q then mkH q false else h) (hosts s)) (hseq s) (issued s).
+  else set_host s (map (fun h => if h_seq h =? q then mkH q false else h) (hosts s)) (hseq s) (issued s) (retiredev s).
 
 (* ------------------------------------------------------------------ ops *)
 Inductive op :=
